@@ -226,3 +226,16 @@ Definition enc_obj (o : obj) : list nat :=
   (match fshape o with ShT l => 0 :: l | ShM l => 1 :: flat_map (fun p => [fst p; snd p]) l end)
   ++ flat_map (fun c => match fst c with C3 a n b => [3; a; n; b] | C4 a m n b => [4; a; m; n; b] end) (ocores o).
 Definition enc_state (st : state) : list nat := flat_map (fun o => let e := enc_obj o in length e :: e) (pool st).
+
+(* ---- persistence and copies (C19) ---- *)
+(* the dictionary written by save(): kind-dependent keys; cores with their contents (storage identities stand for
+   bit-identical contents) *)
+Record saved := mkSaved { s_ttm : bool; s_R : list nat; s_M : list nat; s_N : list nat; s_cores : list (cshape * nat) }.
+Definition save (x : obj) : saved := mkSaved (fttm x) (fR x) (if fttm x then fM x else []) (fN x) (ocores x).
+(* load(): TT(dct['cores']) - everything is re-derived from the cores only *)
+Definition load (d : saved) : errc + obj := ctor (s_cores d).
+
+(* clone(): new storages for every core *)
+Definition clone_obj (st : state) (x : obj) : state := push st (shapes x).
+Definition storages (o : obj) : list nat := map snd (ocores o).
+Definition ids_below (st : state) : Prop := forall o, In o (pool st) -> forall id, In id (storages o) -> id < next_id st.
